@@ -61,7 +61,10 @@ class Plane:
         self._opd = np.asarray(opd)
 
         if mask is None:
-            mask = np.copy(self._amplitude)
+            # the default mask spans the plane's data: a scalar amplitude with
+            # an OPD map transmits over the whole map
+            mask = np.copy(np.broadcast_to(self._amplitude,
+                                           np.broadcast(self._amplitude, self._opd).shape))
         
         mask[mask != 0] = 1
         self._mask = mask
